@@ -687,3 +687,67 @@ def collected_origin(check: Check, repo: Repo, rule: str = "COLLECTED-ORIGIN") -
             if isinstance(a, ast.Name) and a.id in ("grouped_field_set", "new_defer_usages"):
                 ok, why = from_collect(a.id, c)
                 check.ob(rule, c, f"execute_collected_root_fields(... {a.id} ...)", ok, why)
+
+
+# -- the work queue's graph is edited by its owner routines only -----------------------------------------
+
+GRAPH_OWNERS = {
+    # attribute of WorkQueue -> methods that may delete entries from it (confirmed by reading work_queue.py)
+    "_task_nodes": {"_remove_task", "_task_failure"},
+    "_group_nodes": {"_remove_group", "_finish_group_success", "_prune_empty_groups"},
+}
+
+
+def graph_owners(check: Check, repo: Repo, rule: str = "GRAPH-OWNERS") -> None:
+    check.rule(
+        rule,
+        "entries leave WorkQueue._task_nodes / _group_nodes only through their owner routines: a task node is "
+        "deleted by _remove_task (which also detaches the task from every group that shares it) or by the "
+        "failure handler, a group node by _remove_group / _finish_group_success / _prune_empty_groups; inside "
+        "_remove_group the only key deleted directly is the group being removed - child groups are removed by "
+        "the recursive call, so that the whole subtree (grand-children included) leaves the graph. A shortcut "
+        "that pops a node elsewhere leaves a finished task attached to sibling groups (it is started and "
+        "delivered again) or orphaned grand-children (completed for an id that was never announced)",
+    )
+    classes = ClassIndex(repo)
+    ci = classes.get("execution.incremental.work_queue", "WorkQueue")
+    n = 0
+    for name, m in ci.methods().items():
+        alias = {
+            a.targets[0].id: a.value.attr for a in ast.walk(m)
+            if isinstance(a, ast.Assign) and len(a.targets) == 1 and isinstance(a.targets[0], ast.Name)
+            and isinstance(a.value, ast.Attribute) and unparse(a.value.value) == "self" and a.value.attr in GRAPH_OWNERS
+        }
+
+        def attr_of(e: ast.AST) -> str | None:
+            if isinstance(e, ast.Attribute) and unparse(e.value) == "self" and e.attr in GRAPH_OWNERS:
+                return e.attr
+            if isinstance(e, ast.Name) and e.id in alias:
+                return alias[e.id]
+            return None
+
+        for c in ast.walk(m):
+            tgt = key = None
+            if isinstance(c, ast.Call) and isinstance(c.func, ast.Attribute) and c.func.attr in ("pop", "popitem", "clear"):
+                tgt, key = attr_of(c.func.value), (c.args[0] if c.args else None)
+            elif isinstance(c, ast.Delete):
+                for t in c.targets:
+                    if isinstance(t, ast.Subscript) and attr_of(t.value):
+                        tgt, key = attr_of(t.value), t.slice
+            if not tgt:
+                continue
+            n += 1
+            ok = name in GRAPH_OWNERS[tgt]
+            why = f"{name} is an owner routine of {tgt}" if ok else f"{name} deletes from {tgt}; owners are {sorted(GRAPH_OWNERS[tgt])}"
+            if ok and name == "_remove_group" and tgt == "_group_nodes":
+                param = m.args.args[1].arg
+                if key is None or unparse(key) != param:
+                    ok, why = False, (f"_remove_group deletes `{unparse(key) if key is not None else '?'}` directly; only `{param}` itself may be deleted here, "
+                                      "children go through the recursive call")
+            check.ob(rule, c, f"WorkQueue.{name}: {node_text(c, 60)}", ok, why)
+    rg = ci.methods().get("_remove_group")
+    rec = rg is not None and any(isinstance(c, ast.Call) and call_name(c) == "self._remove_group" for c in ast.walk(rg))
+    check.ob(rule, rg or ci.node, "_remove_group recurses into the child groups", rec,
+             "self._remove_group(child_group, ...) inside the loop over child_groups" if rec else "no recursive removal of child groups")
+    if n < 5:
+        raise AnalysisError("GRAPH-OWNERS: deletions from the work queue graph not found")
